@@ -71,6 +71,44 @@ def corpus():
     # the same with the shared object inline in revision 2 (template B): revision 1 stays
     r2b = dl.mk_dset(ctx, ctx.h(2), 102, 2, 2, hash=ctx.h(2), prev=[ctx.h(1)], conds=[AV_F(1)])
     out.append((ctx, dl.scenario(ctx, dl.mk_dep(ctx, 2), [r1, r2b], steps[:3], store=[member])))
+    # rollback with the earlier revision archived
+    a = dl.mk_dset(ctx, ctx.h(1), 101, 1, 1, hash=ctx.h(1), life=2, fin=False, conds=[[4, 0, 8, 1]])
+    b = dl.mk_dset(ctx, ctx.h(2), 102, 2, 2, hash=ctx.h(2), prev=[ctx.h(1)], conds=[AV_T(1), SUCC(1)])
+    steps = [{"op": "dep"}, {"op": "dep"}, {"op": "set", "name": ctx.h(1, 1)}, {"op": "dep"}]
+    out.append((ctx, dl.scenario(ctx, dl.mk_dep(ctx, 1, hash=ctx.h(2)), [a, b], steps)))
+    # full edit sequence T1 -> T2 -> T1 from scratch, every revision rolled out by the real ObjectSet controller
+    steps = [{"op": "dep"}, {"op": "set", "name": ctx.h(1)}, {"op": "dep"}, {"op": "edit", "tmpl": 2}, {"op": "dep"}, {"op": "set", "name": ctx.h(2)},
+             {"op": "dep"}, {"op": "edit", "tmpl": 1}, {"op": "dep"}, {"op": "dep"}, {"op": "set", "name": ctx.h(1, 1)}, {"op": "dep"}]
+    out.append((ctx, dl.scenario(ctx, dl.mk_dep(ctx, 1), [], steps)))
+    # the newest revision is terminating (deletionTimestamp, finalizer still there) when the template changes
+    for tnew in (1, 3):
+        a = dl.mk_dset(ctx, ctx.h(2), 101, 2, 1, hash=ctx.h(2), conds=[AV_T(1)])
+        b = dl.mk_dset(ctx, ctx.h(3), 102, 3, 2, hash=ctx.h(3), prev=[ctx.h(2)], conds=[AV_T(1)], deleting=True, fin=True)
+        steps = [{"op": "dep"}, {"op": "set", "name": ctx.h(tnew, 1 if tnew == 3 else None)}, {"op": "set", "name": ctx.h(tnew)}, {"op": "dep"}, {"op": "dep"}]
+        out.append((ctx, dl.scenario(ctx, dl.mk_dep(ctx, tnew), [a, b], steps)))
+    # an older revision is terminating
+    a = dl.mk_dset(ctx, ctx.h(2), 101, 2, 1, hash=ctx.h(2), conds=[AV_T(1)], deleting=True, fin=True)
+    b = dl.mk_dset(ctx, ctx.h(3), 102, 3, 2, hash=ctx.h(3), prev=[ctx.h(2)], conds=[AV_T(1)])
+    out.append((ctx, dl.scenario(ctx, dl.mk_dep(ctx, 1), [a, b], [{"op": "dep"}, {"op": "set", "name": ctx.h(1)}, {"op": "dep"}])))
+    # paused deployment; revisions with / without the paused-by-parent annotation x lifecycleState Active / Paused
+    # (annotation + Active is what the bootstrap job's ensurePKORevisionsPaused or a patch of lifecycleState leaves behind)
+    for newest_state in ((0, False), (0, True), (1, False), (1, True)):
+        sets = []
+        for i, (life, pbp) in enumerate([(0, False), (0, True), (1, False), (1, True), newest_state]):
+            t = [2, 3, 2, 3, 1][i]
+            name = ctx.h(t, None if i in (0, 1, 4) else 1)
+            sets.append(dl.mk_dset(ctx, name, 101 + i, t, i + 1, hash=name, life=life, pbp=pbp, prev=[x["name"] for x in sets],
+                                   conds=[AV_T(1)] + ([PAUSED(1)] if life == 1 else [])))
+        out.append((ctx, dl.scenario(ctx, dl.mk_dep(ctx, 1, paused=True), sets, [{"op": "dep"}, {"op": "dep"}, {"op": "pause", "v": False}, {"op": "dep"}])))
+    # handover race: the archived revision 1 still controls ConfigMap n1, which revision 2 contains; revision 2's controller adopts it
+    # between revision 1's read and delete
+    for at in (0,):
+        r1 = dl.mk_dset(ctx, ctx.h(1), 101, 1, 1, hash=ctx.h(1), life=2, conds=[PAUSED(1)], ctrlof=[{"gk": 1, "ns": 1, "name": 1}])
+        r2 = dl.mk_dset(ctx, ctx.h(2), 102, 2, 2, hash=ctx.h(2), prev=[ctx.h(1)], conds=[])
+        member = pl.mk_obj(1, 1, 1, 7, 8, rev=1)
+        member["owners"] = [[1, ctx.h(1), 101, 1]]
+        out.append((ctx, dl.scenario(ctx, dl.mk_dep(ctx, 2), [r1, r2], [{"op": "dep"}, {"op": "race", "name": ctx.h(1), "with": ctx.h(2), "at": at}],
+                                     store=[member])))
     return out
 
 
@@ -92,10 +130,12 @@ def gen_history(r, ctx):
         g = r.choice([1, 2])
         conds = r.choice([[], [AV_T(g)], [AV_T(g), SUCC(g)], [AV_F(g)], [AV_T(1)], [AV_T(g), PAUSED(g)], [AV_F(g), PAUSED(g)]])
         life = r.choice([0, 0, 0, 1, 2])
+        terminating = r.random() < 0.12
         own = keys_of(ctx, t, ns)
         sets.append(dl.mk_dset(ctx, name, uid, t, rev, hash=name if r.random() < 0.9 else None, gen=g, conds=conds, life=life,
-                               prev=[s["name"] for s in sets if s["sel"]], pbp=(life == 1 and r.random() < 0.4),
-                               ctrlof=[] if life == 2 else r.choice([[], own, own[:1]]), fin=r.random() < 0.8))
+                               prev=[s["name"] for s in sets if s["sel"]], pbp=(life != 2 and r.random() < 0.35),
+                               ctrlof=[] if life == 2 else r.choice([[], own, own[:1]]), fin=terminating or r.random() < 0.8,
+                               deleting=terminating))
         uid += 1
     # forced clash on the name the next create will use
     tnext = r.choice([t0, t0, r.choice([1, 2, 3])])
